@@ -1,5 +1,6 @@
 import ShVerif.Model.C34
 import ShVerif.Proofs.C34
+import ShVerif.Proofs.C34F
 /-
   C34 — Environment lists behave like an ordered map.  Property theorems (statements are fixed;
   helper lemmas live in ShVerif/Proofs/C34.lean).
@@ -85,5 +86,127 @@ example : listEnviron [[65,61,49], [65,49,61,50], [122], [65,61,51]]
     = some [[65,49,61,50], [65,61,51]] := by decide
 example : get [[65,49,61,50], [65,61,51]] [65] = .val [51] := by decide
 example : get [[65,61,66]] [65,61,66] = .unset := by decide
+
+/-! ## The name-folding mode (`caseInsensitive = true`, i.e. Windows)
+
+  `listEnvironF fold`, `getF fold` are the same code with `listEnviron.compare`'s folding as a
+  parameter.  The theorems hold for every byte-wise folding `List.map f` that moves no byte across
+  `=` (`EqPreserving f`, defined with `specGetF` at the top of Proofs/C34F.lean); `upperAscii` is such
+  a folding, and `specGetCI = specGetF upperAscii`. -/
+
+/-- Strictly increasing folded sort keys. -/
+def KeysIncreasingF (fold : Bytes → Bytes) : List (Bytes × Bytes) → Prop
+  | [] => True
+  | [_] => True
+  | a :: b :: rest =>
+    cmpBytes (fold a.1 ++ [eqByte]) (fold b.1 ++ [eqByte]) = .lt ∧ KeysIncreasingF fold (b :: rest)
+
+/-- With `fold = id` the folded code is the case-sensitive code, so the theorems above are
+    instances of the ones below. -/
+theorem listEnvironF_id : listEnvironF id = listEnviron ∧ getF id = get :=
+  ⟨funext listEnvironF_id_apply, funext fun l => funext fun name => getF_id_apply l name⟩
+
+/-- The folded `listEnviron_` never hits the `slices.Delete(list, i-1, i)` panic. -/
+theorem listEnvironF_total (f : UInt8 → UInt8) (hf : EqPreserving f) (pairs : List Bytes) :
+    ∃ l, listEnvironF (List.map f) pairs = some l := by
+  obtain ⟨l, h, _⟩ := listEnvironF_inv hf pairs
+  exact ⟨l, h⟩
+
+/-- Folded Get returns the last value given for a name that folds like `name`, and nothing when
+    there is none — for every pair list and every name (with or without `=`, empty or not). -/
+theorem getF_spec (f : UInt8 → UInt8) (hf : EqPreserving f) (pairs : List Bytes) (name : Bytes)
+    (l : List Bytes) (h : listEnvironF (List.map f) pairs = some l) :
+    getF (List.map f) l name = ofSpec (specGetF (List.map f) pairs name) := by
+  obtain ⟨l', h1, h2, hv⟩ := listEnvironF_inv hf pairs
+  rw [h] at h1
+  cases h1
+  rw [specGetF_eq hf]
+  by_cases hc : eqByte ∈ name
+  · have hc' : eqByte ∈ name.map f := by
+      have := List.mem_map_of_mem (f := f) hc
+      rwa [(f_eq_iff hf eqByte).2 rfl] at this
+    rw [specGet_of_mem_eq _ _ hc']
+    simp [getF, hc, ofSpec]
+  · rw [getF_eq_get hf l name hv hc]
+    exact get_spec _ _ _ h2
+
+/-- Folded Get never panics. -/
+theorem getF_no_panic (f : UInt8 → UInt8) (hf : EqPreserving f) (pairs : List Bytes) (name : Bytes)
+    (l : List Bytes) (h : listEnvironF (List.map f) pairs = some l) :
+    getF (List.map f) l name ≠ .panic := by
+  rw [getF_spec f hf pairs name l h]; cases specGetF (List.map f) pairs name <;> simp [ofSpec]
+
+/-- Each on the folded list never panics, yields every surviving folded name exactly once (folded
+    keys strictly increasing, hence pairwise distinct) with the last value given for it, and nothing
+    else.  The yielded spelling of the name is that of one of the given pairs. -/
+theorem eachF_spec (f : UInt8 → UInt8) (hf : EqPreserving f) (pairs : List Bytes) (l : List Bytes)
+    (h : listEnvironF (List.map f) pairs = some l) :
+    ∃ nvs, each l = some nvs ∧ KeysIncreasingF (List.map f) nvs ∧
+      (∀ n v, (n, v) ∈ nvs → specGetF (List.map f) pairs n = some v) ∧
+      ∀ n v, specGetF (List.map f) pairs n = some v ↔
+        ∃ n', List.map f n' = List.map f n ∧ (n', v) ∈ nvs := by
+  obtain ⟨l', h1, h2, hv⟩ := listEnvironF_inv hf pairs
+  rw [h] at h1
+  cases h1
+  obtain ⟨nvs', e1, e2, e3⟩ := each_spec _ _ h2
+  rw [each_map hf] at e1
+  cases he : each l with
+  | none => rw [he] at e1; cases e1
+  | some nvs =>
+    rw [he] at e1
+    simp only [Option.map_some, Option.some.injEq] at e1
+    subst e1
+    have hiff : ∀ n v, specGetF (List.map f) pairs n = some v ↔
+        ∃ n', List.map f n' = List.map f n ∧ (n', v) ∈ nvs := by
+      intro n v
+      rw [specGetF_eq hf, ← e3, List.mem_map]
+      constructor
+      · rintro ⟨⟨n', v'⟩, hm, e⟩
+        simp only [Prod.mk.injEq] at e
+        obtain ⟨ea, rfl⟩ := e
+        exact ⟨n', ea, hm⟩
+      · rintro ⟨n', ea, hm⟩
+        exact ⟨(n', v), hm, by simp [ea]⟩
+    refine ⟨nvs, rfl, ?_, ?_, hiff⟩
+    · clear e3 he hiff
+      induction nvs with
+      | nil => trivial
+      | cons a rest ih =>
+        cases rest with
+        | nil => trivial
+        | cons b rest => exact ⟨e2.1, ih e2.2⟩
+    · intro n v hm
+      exact (hiff n v).2 ⟨n, rfl, hm⟩
+
+/-! ### The `upperAscii` instance: what `listEnviron_(true, …)` does on ASCII names -/
+
+theorem listEnvironCI_total (pairs : List Bytes) : ∃ l, listEnvironF upperAscii pairs = some l :=
+  listEnvironF_total upperByte upperByte_eqPreserving pairs
+
+/-- Case-insensitive Get returns the last value given for a name equal to `name` up to ASCII case. -/
+theorem getCI_spec (pairs : List Bytes) (name : Bytes) (l : List Bytes)
+    (h : listEnvironF upperAscii pairs = some l) :
+    getF upperAscii l name = ofSpec (specGetCI pairs name) :=
+  getF_spec upperByte upperByte_eqPreserving pairs name l h
+
+theorem getCI_no_panic (pairs : List Bytes) (name : Bytes) (l : List Bytes)
+    (h : listEnvironF upperAscii pairs = some l) : getF upperAscii l name ≠ .panic :=
+  getF_no_panic upperByte upperByte_eqPreserving pairs name l h
+
+theorem eachCI_spec (pairs : List Bytes) (l : List Bytes)
+    (h : listEnvironF upperAscii pairs = some l) :
+    ∃ nvs, each l = some nvs ∧ KeysIncreasingF upperAscii nvs ∧
+      (∀ n v, (n, v) ∈ nvs → specGetCI pairs n = some v) ∧
+      ∀ n v, specGetCI pairs n = some v ↔ ∃ n', upperAscii n' = upperAscii n ∧ (n', v) ∈ nvs :=
+  eachF_spec upperByte upperByte_eqPreserving pairs l h
+
+/-! Non-vacuity: names differing only by case, a lower-case value longer than the looked-up name
+    (the too-short branch of `Get` folds it), and a name that is a case-variant prefix. -/
+example : listEnvironF upperAscii [[97,61,49], [65,98,61,122], [65,61,50], [122]]
+    = some [[65,61,50], [65,98,61,122]] := by decide
+example : getF upperAscii [[65,61,50], [65,98,61,122]] [97] = .val [50] := by decide
+example : getF upperAscii [[65,61,50], [65,98,61,122]] [97,66] = .val [122] := by decide
+example : getF upperAscii [[65,61,50], [65,98,61,122]] [97,66,67] = .unset := by decide
+example : specGetCI [[97,61,49], [65,98,61,122], [65,61,50], [122]] [97] = some [50] := by decide
 
 end ShVerif.C34
